@@ -101,17 +101,40 @@ theorem groupAll_spec (ctx : Ctx) :
       refine (hp1.append_right ts).trans ?_
       simp
 
-/-- `beamline_clusters` panics only if the sort does (a NaN reaching `partial_cmp().unwrap()`),
-and its clusters together are a permutation of its input. -/
-theorem beamlineClusters_spec {ctx : Ctx} (g : ctx.Good) (tracks : List Nat)
-    (hs : ctx.sort tracks ≠ none) :
-    ∃ cls, beamlineClusters ctx tracks = .ok cls ∧ cls.flatten.Perm tracks := by
+/-- The clusters returned by `beamline_clusters` together are a permutation of its input. -/
+theorem beamlineClusters_perm {ctx : Ctx} (g : ctx.Good) (tracks : List Nat)
+    (cls : List (List Nat)) (h : beamlineClusters ctx tracks = .ok cls) :
+    cls.flatten.Perm tracks := by
+  unfold beamlineClusters at h
+  by_cases he : tracks.isEmpty = true
+  · simp only [he, if_true, Outcome.ok.injEq] at h
+    have : tracks = [] := by simpa using he
+    subst this; subst h
+    simp
+  · simp only [he, Bool.false_eq_true, if_false] at h
+    cases hso : ctx.sort tracks with
+    | none => rw [hso] at h; cases h
+    | some l =>
+      rw [hso] at h
+      have hp := g.sort_perm _ _ hso
+      cases l with
+      | nil => cases h
+      | cons t0 ts =>
+        simp only at h
+        obtain ⟨cls', h1, _, hp1⟩ := groupAll_spec ctx ts (cls := [[t0]])
+          ⟨by simp, by intro c hc; simp at hc; subst hc; simp⟩
+        rw [h1] at h
+        cases h
+        exact (hp1.trans (by simp)).trans hp
+
+/-- `beamline_clusters` panics only if the sort does (a NaN reaching `partial_cmp().unwrap()`):
+`tracks[0]`, `clusters.last().unwrap()` and `.last().unwrap()` are unreachable. -/
+theorem beamlineClusters_total {ctx : Ctx} (g : ctx.Good) (tracks : List Nat)
+    (hs : ctx.sort tracks ≠ none) : ∃ cls, beamlineClusters ctx tracks = .ok cls := by
   unfold beamlineClusters
   by_cases he : tracks.isEmpty = true
   · simp only [he, if_true]
-    have : tracks = [] := by simpa using he
-    subst this
-    exact ⟨[], rfl, by simp⟩
+    exact ⟨[], rfl⟩
   · simp only [he, Bool.false_eq_true, if_false]
     cases hso : ctx.sort tracks with
     | none => exact absurd hso hs
@@ -126,9 +149,9 @@ theorem beamlineClusters_spec {ctx : Ctx} (g : ctx.Good) (tracks : List Nat)
         simp at he
       | cons t0 ts =>
         simp only
-        obtain ⟨cls, h1, _, hp1⟩ := groupAll_spec ctx ts (cls := [[t0]])
+        obtain ⟨cls, h1, _, _⟩ := groupAll_spec ctx ts (cls := [[t0]])
           ⟨by simp, by intro c hc; simp at hc; subst hc; simp⟩
-        exact ⟨cls, h1, (hp1.trans (by simp)).trans hp⟩
+        exact ⟨cls, h1⟩
 
 /-! ### selection -/
 
